@@ -4,6 +4,9 @@ CONSTANTS Procs = {p1, p2}
  Caught = {"eof", "trunc", "type"}
  GuardedRemove = TRUE
  Merge = TRUE
+ RemovesStale = TRUE
+ ChecksFolder = TRUE
+ ExistOk = TRUE
  InitKinds = {"missing", "empty", "partial", "valid", "stale", "junk"}
 INIT GInit
 NEXT GNext
